@@ -115,7 +115,8 @@ func c19values(p int) map[string]*variants.Variant {
 	return map[string]*variants.Variant{
 		"a": variants.VariantFromInteger(10*p + 1), "b": variants.VariantFromInteger(p + 2), "c": variants.VariantFromDouble(float64(p) + 0.5),
 		"d": variants.VariantFromLong(int64(100 * p)), "s": variants.VariantFromString(fmt.Sprintf("s%d", p)),
-		"arr": variants.VariantFromArray([]*variants.Variant{variants.VariantFromInteger(p), variants.VariantFromInteger(p + 2), variants.VariantFromString("x")}),
+		"arr": variants.VariantFromArray([]*variants.Variant{variants.VariantFromInteger(p), variants.VariantFromInteger(p + 2), variants.VariantFromString("x"), variants.VariantFromDouble(float64(p) + 1.5)}),
+		"f": variants.VariantFromFloat(float32(p) + 0.25), "t": variants.VariantFromBoolean(p%2 == 0), "n": variants.EmptyVariant(),
 	}
 }
 
@@ -534,6 +535,8 @@ func genC19(g *Gen) {
 	}
 	progs := []struct{ what, text string }{
 		{"calc", "a + b"}, {"calc", "a + b * c - d"}, {"calc", "Min(a, b) + c"}, {"calc", "arr[b - b] + Sum(c, d, a)"}, {"calc", "a IN arr AND s = 's1'"},
+		{"calc", "c ^ 2 + a"}, {"calc", "arr[3] ^ 2 - f ^ b"}, {"calc", "-c + Abs(c) + Round(f)"}, {"calc", "NOT t OR n IS NULL"}, {"calc", "s + a + c"},
+		{"calc", "If(n IS NULL, c, a) * c"}, {"calc", "Max(c, f) / c"}, {"calc", "a % b + (a << 1) - d"},
 		{"tmpl", "{{A}}{{C}}"}, {"tmpl", "Hi {{A}}{{#b}}[{{{C}}}]{{/b}}{{^d}}n{{/d}}"},
 	}
 	for _, pg := range progs {
